@@ -197,3 +197,30 @@ package gocvss40
 //@   ensures[accept_object] (=> (isnil result.1) (and (not (isnil result.0)) (wf40 (deref result.0)) (forall-in (m 0 31) (= (field40 (deref result.0) m) (select (p.vals (parseRes40 vector)) m)))))
 //@   ensures[reject_nil] (=> (not (isnil result.1)) (isnil result.0))
 //@   ensures[allocation_budget] (=> (isnil result.1) (<= allocs (+ (old allocs) 1)))
+
+// ---- macroVector / Score (C04, C10, C11, C12) ----
+
+//@ func (CVSS40).macroVector(cvss40)
+//@   requires[wf] (wf40 cvss40)
+//@   ensures[eq1] (= result.0 (mveq1_40 cvss40))
+//@   ensures[eq2] (= result.1 (mveq2_40 cvss40))
+//@   ensures[eq3] (= result.2 (mveq3_40 cvss40))
+//@   ensures[eq4] (= result.3 (mveq4_40 cvss40))
+//@   ensures[eq5] (= result.4 (mveq5_40 cvss40))
+//@   ensures[eq6] (= result.5 (mveq6_40 cvss40))
+//@   ensures[no_allocation] (= allocs (old allocs))
+
+// Score is verified by case split on the MacroVector returned by macroVector() (270 cases, which
+// make the loops over the highest-severity vectors concrete), a cut after the loop nest (the four
+// severity distances equal the specification's, as integer-valued floats), and a final case split
+// over the distances.
+//@ func (*CVSS40).Score(cvss40)
+//@   requires[wf] (wf40 cvss40)
+//@   cut_reg[dist1] after getDepth#1 havoc eq1svdst : (= eq1svdst (i2f (dist1_40 cvss40)))
+//@   cut_reg[dist2] after getDepth#1 havoc eq2svdst : (= eq2svdst (i2f (dist2_40 cvss40)))
+//@   cut_reg[dist36] after getDepth#1 havoc eq3eq6svdst : (= eq3eq6svdst (i2f (dist36_40 cvss40)))
+//@   cut_reg[dist4] after getDepth#1 havoc eq4svdst : (= eq4svdst (i2f (dist4_40 cvss40)))
+//@   ensures[spec] (fp.eq result (tenth (ite (noImpact40 cvss40) 0 (kfrom40 (mveq1_40 cvss40) (mveq2_40 cvss40) (mveq3_40 cvss40) (mveq4_40 cvss40) (mveq5_40 cvss40) (mveq6_40 cvss40) (dist1_40 cvss40) (dist2_40 cvss40) (dist36_40 cvss40) (dist4_40 cvss40)))))
+//@   ensures[one_decimal_in_scale] (exists-in (k 0 100) (fp.eq result (tenth k)))
+//@   ensures[rating_accepts] (>= (ratingClass result) 0)
+//@   ensures[no_allocation] (= allocs (old allocs))
